@@ -956,6 +956,7 @@ func ruleGlobals(c *Ctx) {
 		l := c.L
 		a := c.effFor(b)
 		b.closuresWriteCaptures(l)
+		b.noGoroutines(l)
 		for _, pkg := range []*ssa.Package{b.Lib, b.Codec} {
 			if pkg == nil {
 				continue
